@@ -178,12 +178,25 @@ class IRTarget:
         self.overrides = {}
 
     def prove(self, hyps, goal, timeout_ms=60000):
+        """portfolio: z3 with a short budget, then cvc5, then z3 with the full budget.  The nonlinear
+        integer queries of the division kernels are unstable in z3 (1 s or > 60 s on identical input)
+        while cvc5 decides them in 0.1 s; an answer of either solver is a proof of the same query"""
         s = z3.Solver()
-        s.set("timeout", timeout_ms)
+        s.set("timeout", min(10000, timeout_ms))
         s.add(hyps)
         s.add(z3.Not(goal))
         t0 = time.time()
         r = s.check()
+        if r == z3.unknown:
+            from pyvc.solve import cvc5_check, LAST_MODEL
+
+            r2, _ = cvc5_check(s.to_smt2(), timeout_s=30)
+            if r2 == "unsat":
+                return "discharged", None, time.time() - t0, "cvc5"
+            if r2 == "sat" and isinstance(LAST_MODEL[0], dict):
+                return "refuted", LAST_MODEL[0], time.time() - t0, "cvc5"
+            s.set("timeout", timeout_ms)
+            r = s.check()
         secs = time.time() - t0
         if r == z3.unsat:
             return "discharged", None, secs, "z3"
